@@ -2,6 +2,8 @@
 
 from __future__ import annotations
 
+from ..vloop import texc
+
 import asyncio
 import datetime
 import inspect
@@ -97,8 +99,8 @@ def attempt(w: Any, label: str, call: Any, value: Any, part: Part, case: Any) ->
                 t.cancel()
                 w.loop.settle()
                 raise RuntimeError("harness: setter does not return")
-            if t.exception() is not None:
-                raise t.exception()  # type: ignore[misc]
+            if texc(t) is not None:
+                raise texc(t)  # type: ignore[misc]
         raised: BaseException | None = None
     except Exception as exc:  # noqa: BLE001
         raised = exc
